@@ -1,13 +1,19 @@
 """C12 — circuit-breaker recovery re-admits traffic along a bounded linear ramp. See py/props/__init__.py for the SPEC format."""
 
+from props.stress import stress_extra
+
+CBSTRESS_WHAT = ("rounds of a request that arrives just after the fallback period and is slow inside the breaker (30 ms log sink) "
+                 "while the recovery begins and an admitted request fails: after the re-trip, clock unchanged, the breaker reads tripped")
+
 SPEC = {
     "components": [{"name": "cbreaker", "coq_run": "Model.Breaker.run", "quick": 1000, "thorough": 40000}],
+    "extra": stress_extra("cbstress", "C12", ["-mode", "late", "-rounds", "60"], ["-mode", "late", "-rounds", "1500"], CBSTRESS_WHAT),
     "rule": "histories = seeded random interleavings of Arrive / Complete(any in-flight request, status code) / Tick over the real "
             "cbreaker.CircuitBreaker under the frozen clock; condition expressions drawn from the grammar (&&, ||, six comparisons, "
             "NetworkErrorRatio, ResponseCodeRatio, LatencyAtQuantileMS), fallback in {<0,0,1ms..1h}, recovery in {<0,0,1ms..73min, half dyadic}, "
             "check period in {<0,0,1ms,100ms,1s,12s}; requests stay in flight across trips; one history in four is a stale-latency cycle (latency or latency-and-error-ratio condition, 70-130 s of responses with varied latencies in 7-13 ten-second periods so that the rolling latency histogram has wrapped around, a trip, 1-5 s fallback and recovery, then fast responses at due checks); "
             "bursts, trickles and idle gaps during recovery at 1/64..1 of the recovery duration (dyadic durations make the binary64 ramp exact, "
-            "so exact ties (a+1)/(n+1) = 0.5*elapsed/duration are decided by the model alone); non-trivial = the breaker tripped at least once; distinct = distinct (config, op sequence)",
+            "so exact ties (a+1)/(n+1) = 0.5*elapsed/duration are decided by the model alone); non-trivial = the breaker tripped at least once; distinct = distinct (config, op sequence); plus (support) harness/cbstress -mode late: " + CBSTRESS_WHAT,
     "trusted_base": ["model coq/Model/Breaker.v hand-written from cbreaker/cbreaker.go (activateFallback, checkAndSet, setState, "
                      "setRecovering), ratio.go, predicates.go and memmetrics/roundtrip.go; tie = differential replay of every "
                      "generated history (verdict, state, side-effect counts after every Arrive and Complete); the harness issues "
